@@ -72,6 +72,7 @@ class Helper:
         a = node.args
         self.params = [x.arg for x in a.posonlyargs + a.args]
         self.defaults = dict(zip(reversed(self.params), reversed(a.defaults)))
+        self.static = cls is not None and len(node.decorator_list) == 1 and isinstance(node.decorator_list[0], ast.Name) and node.decorator_list[0].id == 'staticmethod'
         self.is_method = cls is not None
         body = list(node.body)
         if body and isinstance(body[0], ast.Expr) and isinstance(body[0].value, ast.Constant) and isinstance(body[0].value.value, str):
@@ -83,9 +84,9 @@ class Helper:
     def eligible(self):
         n = self.node
         a = n.args
-        if n.decorator_list or isinstance(n, ast.AsyncFunctionDef) or a.vararg or a.kwarg or a.kwonlyargs:
+        if (n.decorator_list and not self.static) or isinstance(n, ast.AsyncFunctionDef) or a.vararg or a.kwarg or a.kwonlyargs:
             return False
-        if self.is_method and not self.params:
+        if self.is_method and not self.params and not self.static:
             return False
         if not self.body:
             return False
@@ -332,7 +333,7 @@ def _simple_arg(a):
 
 def instantiate(h, call, caller_node, recv, target_names=None):
     """(prologue stmts, body stmts with locals renamed and parameters bound, return-name hints).  Raises Unsupported."""
-    params = h.params[1:] if h.is_method else list(h.params)
+    params = h.params[1:] if (h.is_method and not h.static) else list(h.params)
     bound = {}
     if len(call.args) > len(params):
         raise Unsupported('too many arguments')
@@ -358,7 +359,7 @@ def instantiate(h, call, caller_node, recv, target_names=None):
     exprs = {}
     names = {}
     prologue = []
-    if h.is_method:
+    if h.is_method and not h.static:
         exprs[h.params[0]] = recv
         if h.params[0] in stored:
             raise Unsupported('helper rebinds self')
@@ -436,8 +437,15 @@ def _first_evaluated_call(stmt, call):
         elif isinstance(e, ast.BinOp):
             e = e.left
         elif isinstance(e, ast.Call) and e is not call:
-            # receiver / first argument are evaluated before the call itself
-            if isinstance(e.func, ast.Attribute):
+            # the callee expression is evaluated first, then the arguments from the left
+            if _pure(e.func):
+                if e.args:
+                    e = e.args[0]
+                elif e.keywords:
+                    e = e.keywords[0].value
+                else:
+                    return False
+            elif isinstance(e.func, ast.Attribute):
                 e = e.func.value
             else:
                 return False
@@ -449,6 +457,17 @@ def _first_evaluated_call(stmt, call):
             e = e.elts[0]
         else:
             return False
+
+
+def _pure(x):
+    """evaluating x has no effect: names, constants, attribute chains over them, super()"""
+    if isinstance(x, (ast.Name, ast.Constant)):
+        return True
+    if isinstance(x, ast.Attribute):
+        return _pure(x.value)
+    if isinstance(x, ast.Call) and isinstance(x.func, ast.Name) and x.func.id == 'super' and not x.args and not x.keywords:
+        return True
+    return False
 
 
 class _ReplaceNode(ast.NodeTransformer):
@@ -466,8 +485,9 @@ def _matches(call, h, selfnames):
     if h.is_method:
         if not (isinstance(f, ast.Attribute) and f.attr == h.name and isinstance(f.value, ast.Name)):
             return False
-        # `self.helper(..)`; or, for a helper whose name is defined once in the whole package, `other.helper(..)` on another object of the class
-        return f.value.id in selfnames or (h.unique and h.expr is not None)
+        # `self.helper(..)`; or, for a helper whose name is defined once in the whole package, `other.helper(..)` on another object of the class;
+        # a static helper may also be reached through the class name
+        return f.value.id in selfnames or (h.unique and h.expr is not None) or (h.static and h.cls is not None and f.value.id == h.cls.name)
     return isinstance(f, ast.Name) and f.id == h.name
 
 
@@ -576,7 +596,7 @@ def inline_into_function(fn, h, selfnames, counter):
                             for k, v in enumerate(vals):
                                 per_pos[k].add(v.id if isinstance(v, ast.Name) else None)
                         if okh:
-                            hparams = h.params[1:] if h.is_method else list(h.params)
+                            hparams = h.params[1:] if (h.is_method and not h.static) else list(h.params)
                             argmap = dict(zip(hparams, c.args))
                             for kw in c.keywords:
                                 argmap[kw.arg] = kw.value
@@ -589,7 +609,7 @@ def inline_into_function(fn, h, selfnames, counter):
                                             others |= _names_in(a)
                                     if v in hints or t.id in hints.values() or t.id in others:
                                         continue
-                                    if v == (h.params[0] if h.is_method else None):
+                                    if v == (h.params[0] if (h.is_method and not h.static) else None):
                                         continue
                                     hints[v] = t.id
                     prologue, body, names = instantiate(h, c, fn, recv, target_names=hints)
